@@ -5,7 +5,7 @@ from vlib import core, corr
 from checks import wire_common as wc
 
 FAMILIES = ["L2", "Ip", "Ip6", "Transport", "Icmp", "App", "Wifi"]
-FAMILY_AUDITS = [f"Audit/Wire{f}.lean" for f in FAMILIES]
+FAMILY_AUDITS = [f"Audit/Wire{f}.lean" for f in FAMILIES] + ["Audit/WireChain.lean"]
 
 
 def family_gens():
